@@ -423,6 +423,18 @@ tlp_combo (Ctx& c, uint64_t gidx, const int M[4][4], const std::vector<LBox>& bo
         // exact images of the corners as rationals X_i / W; extremes by cross-multiplication (all W share one sign)
         int  nlo[3], dlo[3], nhi[3], dhi[3];
         bool first = true;
+        // w must keep one sign over the box (true by construction except for the unit-w single-axis class, which is filtered here)
+        {
+            int wmin = 0, wmax = 0;
+            for (int corner = 0; corner < 8; ++corner)
+            {
+                int W = M[3][3];
+                for (int j = 0; j < 3; ++j) W += ((corner >> j) & 1 ? lb.hi[j] : lb.lo[j]) * M[j][3];
+                if (corner == 0 || W < wmin) wmin = W;
+                if (corner == 0 || W > wmax) wmax = W;
+            }
+            if (wmin <= 0 && wmax >= 0) { c.cls ("skipped_w_changes_sign_on_box"); continue; }
+        }
         for (int corner = 0; corner < 8; ++corner)
         {
             int v[3];
@@ -469,10 +481,19 @@ sub_tlp (Ctx& c, uint64_t idx)
     int M[4][4];
     gen_int_affine (r, (unsigned) (idx % 8), M);
     // last column: w = a x + b y + c z + d with |a x + b y + c z| <= 2(|a|+|b|+|c|) < |d| on the lattice boxes
-    unsigned wcls = (unsigned) ((idx / 8) % 4);
+    unsigned wcls = (unsigned) ((idx / 8) % 5);
     int      abc  = 0;
-    for (int j = 0; j < 3; ++j) { M[j][3] = wcls == 0 ? 0 : (int) r.range (-1, 1); abc += std::abs (M[j][3]); }
-    if (abc == 0)
+    for (int j = 0; j < 3; ++j) { M[j][3] = (wcls == 0 || wcls == 4) ? 0 : (int) r.range (-1, 1); abc += std::abs (M[j][3]); }
+    if (wcls == 4)
+    {
+        // one-point perspective along a single axis with w = 1 + c*v[axis]: the last column looks affine in three of its four
+        // entries (0,..,c,..,1); boxes on which w changes sign are skipped inside tlp_combo
+        int axis = (int) ((idx / 40) % 3);
+        M[axis][3] = r.coin () ? 1 : -1;
+        M[3][3] = 1;
+        c.cls (axis == 0 ? "single_axis_perspective_x_unit_w" : axis == 1 ? "single_axis_perspective_y_unit_w" : "single_axis_perspective_z_unit_w");
+    }
+    else if (abc == 0)
     {
         static const int ds[5] = {2, 3, 4, -1, -2};
         M[3][3] = ds[r.u64 () % 5];
@@ -500,10 +521,10 @@ sub_tlp (Ctx& c, uint64_t idx)
             return Obj ().kv ("matrix_rows", ms).str ();
         });
 }
-MON_SUB_IDX (sub_tlp, "transform_lattice_projective", 128, 4096)
-    .req ({"uniform_w", "w_positive", "w_negative"})
+MON_SUB_IDX (sub_tlp, "transform_lattice_projective", 160, 4096)
+    .req ({"uniform_w", "w_positive", "w_negative", "single_axis_perspective_x_unit_w", "single_axis_perspective_y_unit_w", "single_axis_perspective_z_unit_w"})
     .chunked (4)
-    .over ("per index one integer projective matrix (affine part as transform_lattice_affine, last column (a,b,c,d) with a,b,c in {-1,0,1} and |d| > 2(|a|+|b|+|c|) so that w keeps one sign, or (0,0,0,d) with d != 1) x all 3375 non-empty lattice boxes x {transform, transform(out)} x {float,double}^2: every face == the correctly rounded quotient of the exact rational extreme over the 8 corners; out-parameter form from default / emptied / pre-filled result");
+    .over ("per index one integer projective matrix (affine part as transform_lattice_affine, last column (a,b,c,d) with a,b,c in {-1,0,1} and |d| > 2(|a|+|b|+|c|) so that w keeps one sign, or (0,0,0,d) with d != 1, or a single +-1 in one of a,b,c with d = 1 - boxes on which that w changes sign are skipped) x all 3375 non-empty lattice boxes x {transform, transform(out)} x {float,double}^2: every face == the correctly rounded quotient of the exact rational extreme over the 8 corners; out-parameter form from default / emptied / pre-filled result");
 
 // ================================================================== transform_float_*
 static const char* const fl_cls[8] = {"moderate", "small_box_far_from_origin", "huge_1e15", "tiny_1e-12", "mixed_scales_per_axis", "rotation", "zeros_and_negative_scales", "degenerate_box"};
